@@ -926,6 +926,62 @@ def seq_case(lname, seq):
     return Case(name, body, goals, family="seq/len%d" % len(seq), params=dict(layout=lname, seq=list(seq)), **BIG)
 
 
+def _coords_dump(p):
+    """the table as p.coordinates presents it (column blocks by name, concatenated in space order)"""
+    co = p.coordinates
+    names = list(p.space.keys())
+    t = torch.cat([co[n] for n in names], dim=-1) if names else p._t
+    return dict(space=[[n, co[n].shape[-1]] for n in names], t=t, shape=list(t.shape))
+
+
+def alias_case(lname, how):
+    """histories in which two views of one table could drift apart:
+    read_to_assign_read   coordinates read, p.to(float64), a cell block assigned, coordinates read again
+    repeat_ones_assign    q = p.repeat(1[,1]); assignment into q; p is still the old table, q the assigned one"""
+    layout = LAYOUTS[lname]
+    batch = (2,) if how != "repeat_ones_assign_ab" else (2, 2)
+    name = "alias/%s/%s" % (lname, how)
+    last = layout[-1][0]
+
+    def body(env):
+        ca = mk_coords(env, "a", layout, batch)
+        w = env.tensor("w", tuple(batch[1:]) + (dict(layout)[last],))
+        separate(env, list(ca.values()) + [w])
+        p = Points.from_coordinates(dict(ca))
+        out = dict(ca=ca, w=w)
+        if how == "read_to_assign_read":
+            first = _coords_dump(p)
+            p.to(torch.float64 if p._t.dtype == torch.float32 else torch.float32)  # a real dtype change in both run modes
+            mid = _coords_dump(p)
+            p[0, last] = Points(w.reshape(1, -1) if len(batch) == 1 else w, Space({last: dict(layout)[last]}))
+            out.update(first=first, mid=mid, tensor_view=dump(p), coords_view=_coords_dump(p),
+                       roundtrip=bool(Points.from_coordinates(p.coordinates) == p))
+        else:
+            q = p.repeat(*([1] * len(batch)))
+            if len(batch) == 1:
+                q[0, last] = Points(w.reshape(1, -1), Space({last: dict(layout)[last]}))
+            else:
+                q[0, ..., last] = Points(w, Space({last: dict(layout)[last]}))
+            out.update(p_view=dump(p), q_view=dump(q), p_coords=_coords_dump(p))
+        return out
+
+    def goals(o, L, env):
+        tab = Table.from_coords(o["ca"], order=[n for n, _ in layout])
+        assigned = tab.assign([0], last, Table.from_coords({last: o["w"]}))
+        if how == "read_to_assign_read":
+            yield from cmp("coordinates_first_read/", o["first"], tab, L)
+            yield from cmp("coordinates_after_to/", o["mid"], tab, L)
+            yield from cmp("tensor_after_assignment/", o["tensor_view"], assigned, L)
+            yield from cmp("coordinates_after_assignment/", o["coords_view"], assigned, L)
+            yield "from_coordinates_round_trip", o["roundtrip"]
+        else:
+            yield from cmp("source_of_repeat_unchanged/", o["p_view"], tab, L)
+            yield from cmp("source_coordinates_unchanged/", o["p_coords"], tab, L)
+            yield from cmp("repeated_table_assigned/", o["q_view"], assigned, L)
+
+    return Case(name, body, goals, family="alias/" + how, params=dict(layout=lname, how=how), **BIG)
+
+
 # --------------------------------------------------------------------------
 
 
@@ -1006,6 +1062,10 @@ def cases(tier):
                 if l == "x1" and "permuted" in how:
                     continue
                 cs.append(eq_case(b, l, how))
+    # ---- views that could drift apart (coordinates vs tensor, repeat(1) vs its source)
+    for l in (["x2t1u1", "t1x2"] if thorough else ["x2t1u1"]):
+        for how in ("read_to_assign_read", "repeat_ones_assign", "repeat_ones_assign_ab"):
+            cs.append(alias_case(l, how))
     # ---- spaces
     pairs = [(["x", "t"], ["u"]), (["x", "t"], ["t", "v"]), (["x"], ["x"]), (["x", "t", "u"], ["u", "x"])]
     if thorough:
